@@ -32,6 +32,12 @@ type graph struct {
 // Process the Event by routing it through all of the graph's nodes,
 // starting with the root node.
 func (g *graph) process(ctx context.Context, e *Event) (Status, error) {
+	return g.processWithThresholds(ctx, e, g.successThreshold, g.successThresholdSinks)
+}
+
+// processWithThresholds processes the Event like process, using the supplied
+// success thresholds to determine whether an error should be returned.
+func (g *graph) processWithThresholds(ctx context.Context, e *Event, threshold, thresholdSinks int) (Status, error) {
 	statusChan := make(chan Status)
 	var wg sync.WaitGroup
 	go func() {
@@ -68,7 +74,7 @@ func (g *graph) process(ctx context.Context, e *Event) (Status, error) {
 			}
 		}
 	}
-	return status, status.getError(ctx.Err(), g.successThreshold, g.successThresholdSinks)
+	return status, status.getError(ctx.Err(), threshold, thresholdSinks)
 }
 
 // Recursively process every node in the graph.
